@@ -156,6 +156,12 @@ func (s *XModel) UndoTx(tx *pb.Transaction, batch kvdb.Batch) error {
 			delKey := append([]byte(pb.ExtUtxoTablePrefix), bucketAndKey...)
 			batch.Delete(delKey)
 			s.logger.Trace("    undo xmodel del", "delkey", string(delKey))
+			if isDelFlag(txOut.Value) {
+				// the tx deleted a key that had never been written: its entry in the gc table
+				// must go as well, otherwise the key keeps reading as "deleted by this tx"
+				gcKey := append([]byte(pb.ExtUtxoDelTablePrefix), bucketAndKey...)
+				batch.Delete(gcKey)
+			}
 			s.batchCache.Store(string(bucketAndKey), "")
 		} else {
 			verData, err := s.fetchVersionedData(txOut.Bucket, previousVersion)
